@@ -380,6 +380,11 @@ package cisco
 //vc:  invariant[C08,C01,C02] 1 "for _, sub := range c.sub" len(c.sub) > 0 ==> devMode == pr && s.subCmdOf == pr
 //vc:  assert[C08,C01,C02] at "s.addChange(s.printNetspocCmd(sub))" @subCommandsFollowTheirParent devMode == pr
 //vc:  ensures[C08,C01,C02] @modeBeliefSound modeBeliefSound(s)
+// after a toplevel command the belief is exact: a command that opens a mode is
+// remembered even when it carries no sub-command lines, so that the next
+// sub-command of another parent is preceded by "exit" (needed where the next
+// parent, e.g. webvpn, is also a command of the mode just entered)
+//vc:  ensures[C08,C01,C02] @modeBeliefExactAfterToplevelCommand c.subCmdOf == nil && c.typ.prefix != "aaa-server" && c.typ.prefix != "ldap attribute-map" && c.typ.prefix != "interface" ==> s.subCmdOf == devMode
 
 //vc:func (*State).delCmds
 //vc:  hypothesis[C08,C01,C02] modeBeliefSound(s)
